@@ -159,10 +159,14 @@ def run(ctx):
                         if isinstance(t, ast.Attribute) and isinstance(t.value, ast.Name) and t.value.id in ("Element", "Isotope", "Ion"):
                             ctx.fail("R4", f"{mname}: module-level write {ast.unparse(t)}",
                                      "an atom class is modified at import time", ctx.src.where(mname, node))
-    eager = [ast.unparse(st.value) for st in ctx.src.module("__init__").tree.body
-             if isinstance(st, ast.Expr) and isinstance(st.value, ast.Call) and ast.unparse(st.value.func).endswith(".init")]
-    ctx.check(sorted(eager) == ["density.init(elements)", "mass.init(elements)"], "R4",
-              "only mass and density are loaded eagerly at import (the prerequisites of the lazy loaders)", f"eager: {eager}", "periodictable/__init__.py")
+    eager_calls = [st.value for st in ctx.src.module("__init__").tree.body
+                   if isinstance(st, ast.Expr) and isinstance(st.value, ast.Call) and ast.unparse(st.value.func).endswith(".init")]
+    eager = [ast.unparse(c) for c in eager_calls]
+    on_public = all(len(c.args) + len(c.keywords) == 1 and isinstance((c.args + [k.value for k in c.keywords])[0], ast.Name)
+                    and (c.args + [k.value for k in c.keywords])[0].id == "elements" for c in eager_calls)
+    ctx.check(sorted(ast.unparse(c.func) for c in eager_calls) == ["density.init", "mass.init"] and on_public, "R4",
+              "only mass and density are loaded eagerly at import (the prerequisites of the lazy loaders), on the public table",
+              f"eager: {eager}", "periodictable/__init__.py")
     ctx.floor("R4", 1)
 
 
